@@ -217,6 +217,18 @@ def mix_args(ctx) -> None:
                   f"composition_A is `{show(cA)[:70]}`: not the composition of the well that receives the liquid", where=w)
     vB, cB = fv.res.resolve(b["volume_B"], cs.node), fv.res.resolve(b["composition_B"], cs.node)
     eB, eC = elem_parts(vB), elem_parts(cB)
+    # the mixing is skipped only for an unknown incoming composition (None) or an untracked labware (None):
+    # an empty dict is a known composition (liquid without tracked components) and still dilutes the resident liquid
+    if st.loop_head is not None:
+        body = fv.cfg.loop_body[st.loop_head]
+        for r, pol, _br in fv.atoms_at(cs.node, within=body, skip_raising=True):
+            is_none_test = isinstance(r, ast.Compare) and len(r.ops) == 1 and isinstance(r.ops[0], ast.Is) and isinstance(r.comparators[0], ast.Constant) and r.comparators[0].value is None
+            subject = r.left if is_none_test else r
+            about_comp = key(subject) == key(cB) or attr_of_name(subject, selfn, "_composition") or attr_of_name(subject, selfn, "composition")
+            ok_atom = is_none_test and not pol and about_comp
+            ctx.rep.check(ok_atom, rule, f"{f.qualname}/when[{show(r)[:30]}]", "mixing is skipped only for a None composition / untracked labware",
+                          f"the composition update is {'skipped unless' if pol else 'skipped when'} `{show(r)[:50]}`: additions with a known composition "
+                          "(e.g. an empty dict: liquid without tracked components) no longer dilute the resident liquid", where=w)
     loop = st.well_elem[0]
     okB = eB is not None and eC is not None and eB[0] == loop and eC[0] == loop and is_name(strip_norm(eB[1]), "volumes")
     ctx.rep.check(okB, rule, f"{f.qualname}/incoming", "incoming volume and composition are those of the same iteration",
